@@ -652,3 +652,482 @@ pub(crate) fn c_into_iter<const N: usize>() {
     assert!(ledger_ok(&Seq::new(), &held), "[C03,C12] into_iter: remaining elements not destroyed exactly once when the iterator is dropped");
     nd::reached();
 }
+
+// ----- ranges: every (Bound, Bound) pair (C08 C09 C11) --------------------------------------
+
+pub(crate) fn any_bound() -> Bound<usize> {
+    let k = nd::usize_in(0, 2);
+    let v = nd::any_usize();
+    if k == 0 { Bound::Included(v) } else if k == 1 { Bound::Excluded(v) } else { Bound::Unbounded }
+}
+
+/// mathematical meaning of a pair of bounds; None = outside the documented domain (must panic)
+pub(crate) fn bounds_to_range(lo: Bound<usize>, hi: Bound<usize>, len: usize) -> Option<(usize, usize)> {
+    let s: u128 = match lo { Bound::Included(x) => x as u128, Bound::Excluded(x) => x as u128 + 1, Bound::Unbounded => 0 };
+    let e: u128 = match hi { Bound::Included(x) => x as u128 + 1, Bound::Excluded(x) => x as u128, Bound::Unbounded => len as u128 };
+    if s <= e && e <= len as u128 { Some((s as usize, e as usize)) } else { None }
+}
+
+fn sub_seq(s: &Seq, a: usize, e: usize) -> Seq { let mut m = *s; m.keep_first(e); let k = e - a; m.keep_last(k); m }
+
+/// shared-borrow iterators: iter() / range(R), any interleaving of next / next_back, exact len,
+/// clone continues independently, None forever after exhaustion
+pub(crate) fn c_iter_script<const N: usize>() {
+    let b = any_tokbuf::<N>();
+    let old = ids_of(&b);
+    let (lo, hi) = (any_bound(), any_bound());
+    let rng = bounds_to_range(lo, hi, old.len);
+    nd::assume(rng.is_some());
+    let (s, e) = rng.unwrap();
+    let mut it = if nd::any_bool() { b.range((lo, hi)) } else { nd::assume(s == 0 && e == old.len); b.iter() };
+    let mut m = sub_seq(&old, s, e);
+    let mut pos_front = s; let mut pos_back = e;
+    let steps = nd::usize_in(0, N + 1);
+    let clone_at = nd::usize_in(0, N + 1);
+    let mut k = 0;
+    while k < steps {
+        assert!(it.len() == m.len && it.size_hint() == (m.len, Some(m.len)), "[C08] iter/range: len()/size_hint() differ from the number of elements not yet produced");
+        if k == clone_at {
+            // a clone continues independently from the same point
+            let mut c = it.clone();
+            let r1 = c.next().map(|t| t.id);
+            assert!(r1 == m.get(0) && it.len() == m.len, "[C08] iter/range: clone does not continue from the same point, or advancing it moved the original");
+        }
+        if nd::any_bool() {
+            let r = it.next(); let mr = m.pop_front();
+            match r { Some(t) => { assert!(mr == Some(t.id) && (t as *const Tok) == slot_ptr(&b, pos_front), "[C07,C08] iter/range: next() is not the front-most selected element not yet produced"); pos_front += 1; }
+                      None => assert!(mr.is_none(), "[C08] iter/range: next() returned None before every selected element was produced") }
+        } else {
+            let r = it.next_back(); let mr = m.pop_back();
+            match r { Some(t) => { pos_back -= 1; assert!(mr == Some(t.id) && (t as *const Tok) == slot_ptr(&b, pos_back), "[C07,C08] iter/range: next_back() is not the back-most selected element not yet produced"); }
+                      None => assert!(mr.is_none(), "[C08] iter/range: next_back() returned None before every selected element was produced") }
+        }
+        k += 1;
+    }
+    if m.len == 0 { assert!(it.next().is_none() && it.next_back().is_none() && it.next().is_none() && it.len() == 0, "[C08] iter/range: exhausted iterator is not fused (None forever)"); }
+    let d: Iter<'_, Tok> = Default::default();
+    assert!(d.len() == 0 && d.clone().next().is_none(), "[C08] Iter::default() is not empty");
+    assert!(ids_of(&b).eq(&old), "[C07,C08] iterating changed the buffer");
+    nd::reached();
+    core::mem::forget(b);
+}
+
+pub(crate) fn c_iter_mut_script<const N: usize>() {
+    let mut b = any_tokbuf::<N>();
+    let old = ids_of(&b);
+    let (lo, hi) = (any_bound(), any_bound());
+    let rng = bounds_to_range(lo, hi, old.len);
+    nd::assume(rng.is_some());
+    let (s, e) = rng.unwrap();
+    let base = b.items.as_ptr() as *const Tok; let (st, _sz) = (b.start, b.size);
+    let whole = nd::any_bool();
+    if whole { nd::assume(s == 0 && e == old.len); }
+    {
+        let mut it = if whole { b.iter_mut() } else { b.range_mut((lo, hi)) };
+        let mut m = sub_seq(&old, s, e);
+        let mut pos_front = s; let mut pos_back = e;
+        let steps = nd::usize_in(0, N + 1);
+        let mut k = 0;
+        while k < steps {
+            assert!(it.len() == m.len && it.size_hint() == (m.len, Some(m.len)), "[C08] iter_mut/range_mut: len()/size_hint() differ from the number of elements not yet produced");
+            if nd::any_bool() {
+                let r = it.next(); let mr = m.pop_front();
+                match r { Some(t) => { assert!(mr == Some(t.id) && (t as *mut Tok as *const Tok) == unsafe { base.add(phys(st, pos_front, N)) }, "[C07,C08] iter_mut/range_mut: next() does not address the front-most selected element not yet produced"); pos_front += 1; }
+                          None => assert!(mr.is_none(), "[C08] iter_mut/range_mut: next() returned None early") }
+            } else {
+                let r = it.next_back(); let mr = m.pop_back();
+                match r { Some(t) => { pos_back -= 1; assert!(mr == Some(t.id) && (t as *mut Tok as *const Tok) == unsafe { base.add(phys(st, pos_back, N)) }, "[C07,C08] iter_mut/range_mut: next_back() does not address the back-most selected element not yet produced"); }
+                          None => assert!(mr.is_none(), "[C08] iter_mut/range_mut: next_back() returned None early") }
+            }
+            k += 1;
+        }
+        if m.len == 0 { assert!(it.next().is_none() && it.next_back().is_none() && it.len() == 0, "[C08] iter_mut/range_mut: exhausted iterator is not fused"); }
+    }
+    let d: IterMut<'_, Tok> = Default::default();
+    assert!(d.len() == 0, "[C08] IterMut::default() is not empty");
+    assert!(ids_of(&b).eq(&old), "[C07,C08] iterating changed the buffer");
+    nd::reached();
+    core::mem::forget(b);
+}
+
+/// documented panics (C11): the marker after the call must be unreachable
+pub(crate) fn c_range_must_panic<const N: usize>() {
+    let mut b = any_tokbuf::<N>();
+    let len = b.len();
+    let (lo, hi) = (any_bound(), any_bound());
+    nd::assume(bounds_to_range(lo, hi, len).is_none());
+    let which = nd::usize_in(0, 2);
+    if which == 0 { let it = b.range((lo, hi)); assert!(false, "[C11] MUST-PANIC: range() returned although start > end or end > len"); core::mem::forget(it); }
+    else if which == 1 { let it = b.range_mut((lo, hi)); assert!(false, "[C11] MUST-PANIC: range_mut() returned although start > end or end > len"); core::mem::forget(it); }
+    else { let d = b.drain((lo, hi)); assert!(false, "[C11] MUST-PANIC: drain() returned although start > end or end > len"); core::mem::forget(d); }
+    core::mem::forget(b);
+}
+
+pub(crate) fn c_index_must_panic<const N: usize>() {
+    let mut b = any_tokbuf::<N>();
+    let len = b.len();
+    let i = nd::any_usize(); let j = nd::any_usize();
+    let which = nd::usize_in(0, 2);
+    if which == 0 { nd::assume(i >= len); let t = &b[i]; assert!(false, "[C11] MUST-PANIC: index out of bounds returned a reference"); }
+    else if which == 1 { nd::assume(i >= len); let t = &mut b[i]; assert!(false, "[C11] MUST-PANIC: index_mut out of bounds returned a reference"); }
+    else { nd::assume(i >= len || j >= len); b.swap(i, j); assert!(false, "[C11] MUST-PANIC: swap with an index out of bounds returned"); }
+    core::mem::forget(b);
+}
+
+// ----- drain (C01 C03 C05 C09 C10 C20) ------------------------------------------------------
+
+pub(crate) fn c_drain<const N: usize>() {
+    let mut b = any_tokbuf::<N>();
+    watch(&b);
+    let old = ids_of(&b); let old_slots = slots_of(&b);
+    let (lo, hi) = (any_bound(), any_bound());
+    let rng = bounds_to_range(lo, hi, old.len);
+    nd::assume(rng.is_some());
+    let (a, e) = rng.unwrap();
+    let bp = &b as *const CircularBuffer<N, Tok>;
+    let mut m = sub_seq(&old, a, e);
+    let mut held = Seq::new();
+    {
+        let mut d = b.drain((lo, hi));
+        assert!(unsafe { (*bp).size } == 0 && unsafe { wf(&*bp) }, "[C10] drain: the buffer is not empty-and-valid while the drain is alive");
+        let steps = nd::usize_in(0, N + 1);
+        let mut k = 0;
+        while k < steps {
+            assert!(d.len() == m.len && d.size_hint() == (m.len, Some(m.len)), "[C09] drain: len()/size_hint() differ from the number of elements not yet produced");
+            if nd::any_bool() {
+                let r = d.next(); let mr = m.pop_front();
+                assert!(opt_id(&r) == mr, "[C09] drain: next() is not the front-most element of the range not yet produced");
+                if let Some(t) = r { held.push(t.id); core::mem::forget(t); }
+            } else {
+                let r = d.next_back(); let mr = m.pop_back();
+                assert!(opt_id(&r) == mr, "[C09] drain: next_back() is not the back-most element of the range not yet produced");
+                if let Some(t) = r { held.push(t.id); core::mem::forget(t); }
+            }
+            assert!(unsafe { (*bp).size } == 0, "[C10] drain: the buffer is not empty while the drain is alive");
+            k += 1;
+        }
+        if m.len == 0 { assert!(d.next().is_none() && d.next_back().is_none() && d.len() == 0, "[C09] drain: exhausted drain is not fused"); }
+        // nothing destroyed yet, nothing duplicated
+        let mut rest = sub_seq(&old, 0, a); rest.append(&m); rest.append(&sub_seq(&old, e, old.len));
+        assert!(ledger_ok(&rest, &held), "[C03,C09] drain: element destroyed or duplicated while draining");
+        drop(d);
+    }
+    unwatch();
+    post_common(&b, "drain");
+    let new = ids_of(&b);
+    let mut want = sub_seq(&old, 0, a); want.append(&sub_seq(&old, e, old.len));
+    assert!(new.eq(&want), "[C01,C09] drain: buffer is not (elements before the range) ++ (elements after the range) in order");
+    assert!(b.len() == old.len - (e - a), "[C01,C09] drain: wrong length afterwards");
+    assert!(ledger_ok(&new, &held), "[C03,C09] drain: a drained element not handed out was not destroyed exactly once (or another element was)");
+    assert!(relocated(&old_slots, &slots_of(&b), next_id()) <= old.len - e, "[C20] drain(i..j) relocates more than len-j surviving elements");
+    nd::reached();
+    core::mem::forget(b);
+}
+
+/// leaking a drain (C10)
+pub(crate) fn c_drain_leak<const N: usize>() {
+    let mut b = any_tokbuf::<N>();
+    let old = ids_of(&b);
+    let (lo, hi) = (any_bound(), any_bound());
+    let rng = bounds_to_range(lo, hi, old.len);
+    nd::assume(rng.is_some());
+    let (a, e) = rng.unwrap();
+    let mut m = sub_seq(&old, a, e);
+    let mut held = Seq::new();
+    {
+        let mut d = b.drain((lo, hi));
+        let steps = nd::usize_in(0, N + 1);
+        let mut k = 0;
+        while k < steps {
+            if nd::any_bool() { if let Some(t) = d.next() { held.push(t.id); core::mem::forget(t); } }
+            else { if let Some(t) = d.next_back() { held.push(t.id); core::mem::forget(t); } }
+            k += 1;
+        }
+        core::mem::forget(d);
+    }
+    post_common(&b, "drain (leaked)");
+    let new = ids_of(&b);
+    // valid sequence of live, distinct elements drawn from the original contents, disjoint from the elements handed out
+    let mut i = 0;
+    while i < new.len {
+        let id = new.a[i];
+        assert!(old.contains(id) && !held.contains(id) && drops(id as usize) == 0, "[C10] leaked drain: buffer holds an element that is dead, foreign, or was already handed out");
+        let mut j = 0; while j < i { assert!(new.a[j] != id, "[C10] leaked drain: buffer holds an element twice"); j += 1; }
+        i += 1;
+    }
+    // keeps working normally, and nothing is destroyed twice (Tok::drop asserts that)
+    let x = Tok::fresh(); let xid = x.id;
+    let mut mm = new;
+    let r = b.push_back(x); let mr = mm.push_back_capped(xid, N);
+    assert!(opt_id(&r) == mr && ids_of(&b).eq(&mm), "[C10] leaked drain: buffer does not behave like a normal buffer afterwards");
+    core::mem::forget(r);
+    let snapshot = ids_of(&b);
+    unsafe { core::ptr::drop_in_place(&mut b); }
+    let mut i = 0; while i < held.len { assert!(drops(held.a[i] as usize) == 0, "[C10] leaked drain: an element handed out by the drain was destroyed by the buffer"); i += 1; }
+    let mut i = 0; while i < snapshot.len { if snapshot.a[i] != xid || mr.is_none() { assert!(drops(snapshot.a[i] as usize) == 1 || (mr == Some(snapshot.a[i])), "[C10] leaked drain: element of the buffer not destroyed when the buffer is dropped"); } i += 1; }
+    nd::reached();
+    core::mem::forget(b);
+}
+
+// ----- equality, ordering, hashing over u8 (C13) --------------------------------------------
+
+fn seq_lex_cmp(a: &Seq, b: &Seq) -> core::cmp::Ordering {
+    let mut i = 0;
+    while i < a.len && i < b.len {
+        if a.a[i] < b.a[i] { return core::cmp::Ordering::Less; }
+        if a.a[i] > b.a[i] { return core::cmp::Ordering::Greater; }
+        i += 1;
+    }
+    a.len.cmp(&b.len)
+}
+
+pub(crate) fn c_eq<const N: usize, const M: usize>() {
+    let a = any_u8buf::<N>(); let b = any_u8buf::<M>();
+    let sa = bytes_of(&a); let sb = bytes_of(&b);
+    let same = sa.eq(&sb);
+    assert!((a == b) == same, "[C13] buffer == buffer differs from equality of the element sequences");
+    assert!((b == a) == same, "[C13] buffer == buffer is not symmetric / depends on layout or capacity");
+    assert!(a.partial_cmp(&b) == Some(seq_lex_cmp(&sa, &sb)), "[C13] partial_cmp is not the lexicographic order of the element sequences");
+    nd::reached();
+}
+
+pub(crate) fn c_eq_slice<const N: usize, const L: usize>() {
+    let a = any_u8buf::<N>();
+    let sa = bytes_of(&a);
+    let mut arr = [0u8; L];
+    let mut i = 0; while i < L { arr[i] = nd::any_u8(); i += 1; }
+    let n = nd::usize_in(0, L);
+    let mut ss = Seq::new(); let mut i = 0; while i < n { ss.push(arr[i]); i += 1; }
+    let same = sa.eq(&ss);
+    let sl: &[u8] = &arr[..n];
+    assert!((a == *sl) == same, "[C13] buffer == [U] differs from equality of the element sequences");
+    assert!((a == sl) == same, "[C13] buffer == &[U] differs from equality of the element sequences");
+    let mut arr2 = arr;
+    { let slm: &mut [u8] = &mut arr2[..n]; assert!((a == slm) == same, "[C13] buffer == &mut [U] differs from equality of the element sequences"); }
+    // whole-array forms
+    let mut sw = Seq::new(); let mut i = 0; while i < L { sw.push(arr[i]); i += 1; }
+    let same_w = sa.eq(&sw);
+    assert!((a == arr) == same_w, "[C13] buffer == [U; M] differs from equality of the element sequences");
+    assert!((a == &arr) == same_w, "[C13] buffer == &[U; M] differs from equality of the element sequences");
+    { let am: &mut [u8; L] = &mut arr2; assert!((a == am) == same_w, "[C13] buffer == &mut [U; M] differs from equality of the element sequences"); }
+    nd::reached();
+}
+
+pub(crate) struct RecHasher { pub log: Seq, pub words: [u64; CAP], pub nw: usize }
+impl core::hash::Hasher for RecHasher {
+    fn finish(&self) -> u64 { 0 }
+    fn write(&mut self, bytes: &[u8]) { let mut i = 0; while i < bytes.len() { self.log.push(bytes[i]); i += 1; } self.log.push(254); }
+    fn write_u8(&mut self, i: u8) { self.log.push(i); self.log.push(253); }
+    fn write_usize(&mut self, i: usize) { if self.nw < CAP { self.words[self.nw] = i as u64; self.nw += 1; } self.log.push(252); }
+}
+
+pub(crate) fn c_hash_ord<const N: usize>() {
+    use core::hash::Hash;
+    let a = any_u8buf::<N>(); let b = any_u8buf::<N>();
+    let sa = bytes_of(&a); let sb = bytes_of(&b);
+    assert!(a.cmp(&b) == seq_lex_cmp(&sa, &sb), "[C13] cmp is not the lexicographic order of the element sequences");
+    let mut ha = RecHasher { log: Seq::new(), words: [0; CAP], nw: 0 };
+    let mut hb = RecHasher { log: Seq::new(), words: [0; CAP], nw: 0 };
+    a.hash(&mut ha); b.hash(&mut hb);
+    if sa.eq(&sb) {
+        let mut same = ha.log.eq(&hb.log) && ha.nw == hb.nw;
+        let mut i = 0; while i < ha.nw && i < hb.nw { if ha.words[i] != hb.words[i] { same = false; } i += 1; }
+        assert!(same, "[C13] equal buffers of the same capacity feed different data to the Hasher (hash depends on layout)");
+    }
+    nd::reached();
+}
+
+// ----- byte-stream I/O (C14, C16) -----------------------------------------------------------
+
+#[cfg(feature = "std")]
+pub(crate) fn c_io_write<const N: usize, const L: usize>() {
+    use std::io::Write;
+    let mut b = any_u8buf::<N>();
+    let old = bytes_of(&b);
+    let mut src = [0u8; L]; let mut i = 0; while i < L { src[i] = nd::any_u8(); i += 1; }
+    let n = nd::usize_in(0, L);
+    let r = b.write(&src[..n]);
+    assert!(wf(&b), "[C14] write: representation invariant broken");
+    match r { Ok(k) => assert!(k == n, "[C14] write did not report the full input length"), Err(_) => assert!(false, "[C14] write returned an error") }
+    let mut m = old; let mut i = 0; while i < n { m.push(src[i]); i += 1; }
+    m.keep_last(N);
+    assert!(bytes_of(&b).eq(&m), "[C14] write: buffer does not hold the last N bytes of (old contents ++ input)");
+    assert!(b.flush().is_ok(), "[C14] flush returned an error");
+    assert!(bytes_of(&b).eq(&m), "[C14] flush changed the buffer");
+    nd::reached();
+}
+
+#[cfg(feature = "std")]
+pub(crate) fn c_io_read<const N: usize, const D: usize>() {
+    use std::io::Read;
+    let mut b = any_u8buf::<N>();
+    let old = bytes_of(&b);
+    let mut dst = [7u8; D];
+    let d = nd::usize_in(0, D);
+    let r = b.read(&mut dst[..d]);
+    assert!(wf(&b), "[C14] read: representation invariant broken");
+    let want = if d < old.len { d } else { old.len };
+    match r { Ok(k) => assert!(k == want, "[C14] read did not return min(destination length, buffered length)"), Err(_) => assert!(false, "[C14] read returned an error") }
+    let mut i = 0; while i < want { assert!(dst[i] == old.a[i], "[C14] read: bytes delivered are not the front bytes in order"); i += 1; }
+    let mut m = old; m.keep_last(old.len - want);
+    assert!(bytes_of(&b).eq(&m), "[C14] read: did not remove exactly the bytes delivered from the front");
+    nd::reached();
+}
+
+#[cfg(feature = "std")]
+pub(crate) fn c_io_bufread<const N: usize>() {
+    use std::io::BufRead;
+    let mut b = any_u8buf::<N>();
+    let old = bytes_of(&b);
+    {
+        let r = b.fill_buf();
+        match r {
+            Ok(s) => {
+                assert!(s.len() <= old.len && (old.len == 0 || s.len() > 0), "[C14] fill_buf: not a non-empty prefix of a non-empty buffer");
+                let mut i = 0; while i < s.len() && i < old.len { assert!(s[i] == old.a[i], "[C14] fill_buf: returned bytes are not a prefix of the contents"); i += 1; }
+            }
+            Err(_) => assert!(false, "[C14] fill_buf returned an error"),
+        }
+    }
+    assert!(bytes_of(&b).eq(&old), "[C14] fill_buf changed the buffer");
+    let k = nd::any_usize();
+    b.consume(k);
+    assert!(wf(&b), "[C14] consume: representation invariant broken");
+    let want = if k < old.len { k } else { old.len };
+    let mut m = old; m.keep_last(old.len - want);
+    assert!(bytes_of(&b).eq(&m), "[C14] consume(k) did not remove exactly the first min(k, len) bytes");
+    nd::reached();
+}
+
+/// bitwise copy of a byte buffer (same layout, same garbage) - for pairwise comparison of impls
+pub(crate) fn dup_u8buf<const N: usize>(b: &CircularBuffer<N, u8>) -> CircularBuffer<N, u8> {
+    unsafe { core::ptr::read(b) }
+}
+
+#[cfg(all(feature = "std", feature = "embedded-io"))]
+pub(crate) fn c_eio_vs_std<const N: usize, const L: usize>() {
+    let mut a = any_u8buf::<N>();
+    let mut b = dup_u8buf(&a);
+    let op = nd::usize_in(0, 4);
+    let mut src = [0u8; L]; let mut i = 0; while i < L { src[i] = nd::any_u8(); i += 1; }
+    let n = nd::usize_in(0, L);
+    if op == 0 {
+        let ra = std::io::Write::write(&mut a, &src[..n]);
+        let rb = ::embedded_io::Write::write(&mut b, &src[..n]);
+        match (ra, rb) { (Ok(x), Ok(y)) => assert!(x == y, "[C16] embedded-io write returns a different count than std::io"), _ => assert!(false, "[C16] write failed") }
+    } else if op == 1 {
+        let mut da = [0u8; L]; let mut db = [0u8; L];
+        let ra = std::io::Read::read(&mut a, &mut da[..n]);
+        let rb = ::embedded_io::Read::read(&mut b, &mut db[..n]);
+        match (ra, rb) { (Ok(x), Ok(y)) => { assert!(x == y, "[C16] embedded-io read returns a different count than std::io");
+                                             let mut i = 0; while i < x { assert!(da[i] == db[i], "[C16] embedded-io read delivers different bytes than std::io"); i += 1; } }
+                         _ => assert!(false, "[C16] read failed") }
+    } else if op == 2 {
+        let la = { let s = std::io::BufRead::fill_buf(&mut a).unwrap(); (s.len(), if s.len() > 0 { s[0] } else { 0 }) };
+        let lb = match ::embedded_io::BufRead::fill_buf(&mut b) { Ok(s) => (s.len(), if s.len() > 0 { s[0] } else { 0 }), Err(_) => { assert!(false, "[C16] embedded-io fill_buf failed"); (0, 0) } };
+        assert!(la == lb, "[C16] embedded-io fill_buf returns a different slice than std::io");
+    } else if op == 3 {
+        let k = nd::any_usize();
+        std::io::BufRead::consume(&mut a, k);
+        ::embedded_io::BufRead::consume(&mut b, k);
+    } else {
+        assert!(std::io::Write::flush(&mut a).is_ok() && ::embedded_io::Write::flush(&mut b).is_ok(), "[C16] flush failed");
+    }
+    assert!(wf(&b) && bytes_of(&a).eq(&bytes_of(&b)), "[C16] embedded-io impl leaves different contents than the std::io impl");
+    nd::reached();
+}
+
+#[cfg(all(feature = "std", feature = "embedded-io-async"))]
+pub(crate) fn poll_once<F: core::future::Future>(f: F) -> Option<F::Output> {
+    use core::task::{Context, Poll, RawWaker, RawWakerVTable, Waker};
+    const VT: RawWakerVTable = RawWakerVTable::new(|_| RawWaker::new(core::ptr::null(), &VT), |_| {}, |_| {}, |_| {});
+    let waker = unsafe { Waker::from_raw(RawWaker::new(core::ptr::null(), &VT)) };
+    let mut cx = Context::from_waker(&waker);
+    let mut f = core::pin::pin!(f);
+    match f.as_mut().poll(&mut cx) { Poll::Ready(v) => Some(v), Poll::Pending => None }
+}
+
+#[cfg(all(feature = "std", feature = "embedded-io-async"))]
+pub(crate) fn c_eio_async_vs_std<const N: usize, const L: usize>() {
+    let mut a = any_u8buf::<N>();
+    let mut b = dup_u8buf(&a);
+    let op = nd::usize_in(0, 4);
+    let mut src = [0u8; L]; let mut i = 0; while i < L { src[i] = nd::any_u8(); i += 1; }
+    let n = nd::usize_in(0, L);
+    if op == 0 {
+        let ra = std::io::Write::write(&mut a, &src[..n]);
+        match poll_once(::embedded_io_async::Write::write(&mut b, &src[..n])) {
+            Some(Ok(y)) => assert!(ra.is_ok() && ra.unwrap() == y, "[C16] embedded-io-async write returns a different count than std::io"),
+            Some(Err(_)) => assert!(false, "[C16] embedded-io-async write failed"),
+            None => assert!(false, "[C16] embedded-io-async write returned Pending") }
+    } else if op == 1 {
+        let mut da = [0u8; L]; let mut db = [0u8; L];
+        let ra = std::io::Read::read(&mut a, &mut da[..n]);
+        match poll_once(::embedded_io_async::Read::read(&mut b, &mut db[..n])) {
+            Some(Ok(y)) => { assert!(ra.is_ok() && ra.unwrap() == y, "[C16] embedded-io-async read returns a different count than std::io");
+                             let mut i = 0; while i < y { assert!(da[i] == db[i], "[C16] embedded-io-async read delivers different bytes than std::io"); i += 1; } }
+            Some(Err(_)) => assert!(false, "[C16] embedded-io-async read failed"),
+            None => assert!(false, "[C16] embedded-io-async read returned Pending") }
+    } else if op == 2 {
+        let la = { let s = std::io::BufRead::fill_buf(&mut a).unwrap(); (s.len(), if s.len() > 0 { s[0] } else { 0 }) };
+        match poll_once(::embedded_io_async::BufRead::fill_buf(&mut b)) {
+            Some(Ok(s)) => assert!(la == (s.len(), if s.len() > 0 { s[0] } else { 0 }), "[C16] embedded-io-async fill_buf returns a different slice than std::io"),
+            Some(Err(_)) => assert!(false, "[C16] embedded-io-async fill_buf failed"),
+            None => assert!(false, "[C16] embedded-io-async fill_buf returned Pending") }
+    } else if op == 3 {
+        let k = nd::any_usize();
+        std::io::BufRead::consume(&mut a, k);
+        ::embedded_io_async::BufRead::consume(&mut b, k);
+    } else {
+        match poll_once(::embedded_io_async::Write::flush(&mut b)) { Some(Ok(())) => {}, _ => assert!(false, "[C16] embedded-io-async flush failed or returned Pending") }
+    }
+    assert!(wf(&b) && bytes_of(&a).eq(&bytes_of(&b)), "[C16] embedded-io-async impl leaves different contents than the std::io impl");
+    nd::reached();
+}
+
+// ----- zero-sized elements (C19) ------------------------------------------------------------
+
+pub(crate) struct Z;
+pub(crate) static mut ZDROPS: usize = 0;
+impl Drop for Z { fn drop(&mut self) { unsafe { ZDROPS += 1; } } }
+fn zdrops() -> usize { unsafe { ZDROPS } }
+
+pub(crate) fn any_zbuf<const N: usize>() -> CircularBuffer<N, Z> {
+    let mut b = CircularBuffer::<N, Z>::new();
+    if N == 0 { return b; }
+    b.start = nd::usize_in(0, N - 1);
+    b.size = nd::usize_in(0, N);
+    b
+}
+
+pub(crate) fn c_zst<const N: usize>() {
+    unsafe { ZDROPS = 0; }
+    let mut b = any_zbuf::<N>();
+    let len0 = b.len();
+    let op = nd::usize_in(0, 9);
+    let arg = nd::any_usize();
+    let mut len = len0; let mut dropped = 0usize;
+    if op == 0 { let r = b.push_back(Z); if N == 0 || len0 == N { assert!(r.is_some(), "[C19] ZST push_back: displaced element not returned"); } else { assert!(r.is_none(), "[C19] ZST push_back"); len += 1; } core::mem::forget(r); }
+    else if op == 1 { let r = b.push_front(Z); if N == 0 || len0 == N { assert!(r.is_some(), "[C19] ZST push_front: displaced element not returned"); } else { assert!(r.is_none(), "[C19] ZST push_front"); len += 1; } core::mem::forget(r); }
+    else if op == 2 { let r = b.pop_back(); assert!(r.is_some() == (len0 > 0), "[C19] ZST pop_back"); if len0 > 0 { len -= 1; } core::mem::forget(r); }
+    else if op == 3 { let r = b.pop_front(); assert!(r.is_some() == (len0 > 0), "[C19] ZST pop_front"); if len0 > 0 { len -= 1; } core::mem::forget(r); }
+    else if op == 4 { let r = b.remove(arg); assert!(r.is_some() == (arg < len0), "[C19] ZST remove"); if arg < len0 { len -= 1; } core::mem::forget(r); }
+    else if op == 5 { b.truncate_back(arg); if arg < len0 { dropped = len0 - arg; len = arg; } }
+    else if op == 6 { b.truncate_front(arg); if arg < len0 { dropped = len0 - arg; len = arg; } }
+    else if op == 7 { b.clear(); dropped = len0; len = 0; }
+    else if op == 8 { let r = b.swap_remove_back(arg); assert!(r.is_some() == (arg < len0), "[C19] ZST swap_remove_back"); if arg < len0 { len -= 1; } core::mem::forget(r); }
+    else { let (lo, hi) = (any_bound(), any_bound()); let rng = bounds_to_range(lo, hi, len0); nd::assume(rng.is_some()); let (a, e) = rng.unwrap();
+           { let mut d = b.drain((lo, hi)); if nd::any_bool() { let r = d.next(); if let Some(z) = r { core::mem::forget(z); if e > a { dropped = e - a - 1; } } else { dropped = 0; } } else { dropped = e - a; } }
+           len = len0 - (e - a); }
+    assert!(wf(&b) && b.len() == len && b.is_empty() == (len == 0) && b.is_full() == (len == N), "[C19] ZST: length / emptiness / fullness do not follow the sequence semantics");
+    assert!(zdrops() == dropped, "[C19] ZST: number of destructor runs differs from the number of elements removed and not returned");
+    unsafe { core::ptr::drop_in_place(&mut b); }
+    assert!(zdrops() == dropped + len, "[C19] ZST: dropping the buffer does not destroy exactly the remaining elements");
+    nd::reached();
+    core::mem::forget(b);
+}
+
+// ----- no allocation (C17): allocator entry points are stubbed with this ----------------------
+
+pub(crate) unsafe fn no_alloc(_l: core::alloc::Layout) -> *mut u8 { panic!("[C17] heap allocation performed by an operation that must not allocate") }
+pub(crate) unsafe fn no_realloc(_p: *mut u8, _l: core::alloc::Layout, _n: usize) -> *mut u8 { panic!("[C17] heap reallocation performed by an operation that must not allocate") }
